@@ -796,6 +796,27 @@ fn exhaustive(opts: &Opts) -> Vec<Case> {
             attrs: vec![GAttr::Rebind, GAttr::Comment(PLAIN.into())],
             body: std_body("n0"),
         }]));
+        // … FOLLOWED by ordinary statements: a namespace declaration is in scope for its element only,
+        // so the binding made on a statement that is skipped must be gone for its later siblings
+        let late = GStmt {
+            attrs: vec![GAttr::Comment(GOOD.into())],
+            body: std_body("late"),
+        };
+        for skipped in [
+            vec![GAttr::Rebind, GAttr::Comment(PLAIN.into())],
+            vec![GAttr::Rebind, GAttr::Comment(GOOD.into())],
+            vec![GAttr::Rebind],
+            vec![GAttr::Active("false".into()), GAttr::Rebind, GAttr::Comment(GOOD.into())],
+        ] {
+            cases.push(plain_case(vec![
+                GStmt {
+                    attrs: skipped.clone(),
+                    body: std_body("n0"),
+                },
+                late.clone(),
+                witness.clone(),
+            ]));
+        }
     }
     // duplicate names among managed / unmanaged statements
     let managed = |n: &str| GStmt {
